@@ -35,6 +35,26 @@ var audiences = map[string]string{ //nolint:gochecknoglobals
 var scopeBase = map[string]string{"s1": "orders", "s2": "billing", "s3": "admin"} //nolint:gochecknoglobals
 
 func IssName(s string) string { return issuers[s] }
+
+// IssName of a case: the issuer nobody trusts at the mechanism level ("i3") is, case by case, a
+// stranger or a near miss of the trusted "i1" (trailing slash, other case, a prefix) - another
+// issuer all the same.
+func (c *Case) IssName(s string) string {
+	if s != "i3" {
+		return issuers[s]
+	}
+
+	switch c.Conc.Extra % 4 { //nolint:mnd
+	case 1:
+		return issuers["i1"] + "/"
+	case 2:
+		return "https://IDP-ONE.verif.example/realms/main"
+	case 3: //nolint:mnd
+		return issuers["i1"][:len(issuers["i1"])-1]
+	default:
+		return issuers[s]
+	}
+}
 func AudName(s string) string { return audiences[s] }
 
 // RequiredScope is the spelling of a required scope in a matcher configuration.
@@ -118,8 +138,13 @@ func ScopesConfig(syms []string, strategy string) any {
 }
 
 // AssertionsConfig renders an assertions block (only what is set).
-func AssertionsConfig(a Assert, strategy string) map[string]any {
+func AssertionsConfig(a Assert, strategy string, iss ...func(string) string) map[string]any {
 	out := map[string]any{}
+
+	issName := IssName
+	if len(iss) == 1 {
+		issName = iss[0]
+	}
 
 	strs := func(in []string, f func(string) string) []any {
 		o := make([]any, len(in))
@@ -131,7 +156,7 @@ func AssertionsConfig(a Assert, strategy string) map[string]any {
 	}
 
 	if len(a.Iss) != 0 {
-		out["issuers"] = strs(a.Iss, IssName)
+		out["issuers"] = strs(a.Iss, issName)
 	}
 
 	if len(a.Aud) != 0 {
@@ -171,7 +196,7 @@ func Payload(c *Case, now time.Time) (map[string]any, error) {
 	}
 
 	if t.Iss != Absent {
-		cl["iss"] = IssName(t.Iss)
+		cl["iss"] = c.IssName(t.Iss)
 	}
 
 	if len(t.Aud) != 0 {
